@@ -1,1 +1,54 @@
-pub fn run(_rest: &str) -> String { "todo".into() }
+//! `li <hex> <maxcol>`: every char-boundary offset -> LSP position (to_proto::position) and every
+//! (line, col) with line <= numLines, col <= maxcol -> offset (from_proto::position).
+//! Same enumeration and format as the Lean driver. Each conversion runs under catch_unwind.
+use async_lsp::lsp_types::Position;
+use ide::line_index::LineIndex;
+use text_size::TextSize;
+
+fn num_lines(text: &str) -> usize {
+    let b = text.as_bytes();
+    let mut n = 1;
+    for i in 0..b.len() {
+        if b[i] == b'\n' || (b[i] == b'\r' && b.get(i + 1) != Some(&b'\n')) {
+            n += 1;
+        }
+    }
+    n
+}
+
+pub fn run(rest: &str) -> String {
+    let mut it = rest.split(' ');
+    let text = crate::util::unhex_str(it.next().unwrap_or(""));
+    let maxcol: u32 = it.next().unwrap_or("0").parse().unwrap_or(0);
+    let all_offsets = it.next() == Some("all");
+    let li = match std::panic::catch_unwind(|| LineIndex::new(&text)) {
+        Ok(li) => li,
+        Err(_) => return "PANIC LineIndex::new".to_string(),
+    };
+    let li = std::panic::AssertUnwindSafe(li);
+    let mut fw = Vec::new();
+    for o in 0..=text.len() {
+        let boundary = text.is_char_boundary(o);
+        if !boundary && !all_offsets {
+            continue;
+        }
+        let r = std::panic::catch_unwind(|| lsp::to_proto::position(&li, TextSize::from(o as u32)));
+        match (r, boundary) {
+            (Ok(p), true) => fw.push(format!("{}={},{}", o, p.line, p.character)),
+            (Ok(_), false) => {}
+            (Err(_), _) => fw.push(format!("{}=P", o)),
+        }
+    }
+    let nl = num_lines(&text);
+    let mut bw = Vec::new();
+    for l in 0..=nl {
+        for c in 0..=maxcol {
+            let r = std::panic::catch_unwind(|| lsp::from_proto::position(&li, Position::new(l as u32, c)));
+            match r {
+                Ok(o) => bw.push(format!("{},{}={}", l, c, u32::from(o))),
+                Err(_) => bw.push(format!("{},{}=P", l, c)),
+            }
+        }
+    }
+    format!("T {} F {}", fw.join(";"), bw.join(";"))
+}
